@@ -1,0 +1,11 @@
+//go:build verif
+// +build verif
+
+package pdnode_coord
+
+// Lemma functions for the deductive verifier in /verif (govc); never called by production code.
+
+// lemmaV1Distinct: in the ring (v1) layout the replicas of one partition are pairwise different nodes.
+func lemmaV1Distinct(ns string, partitionNum int, replica int, sortedNodes SortableStrings, i int, j1 int, j2 int) [][]string {
+	return fillPartitionMapV1(ns, partitionNum, replica, sortedNodes)
+}
